@@ -45,7 +45,7 @@ func TestMain(m *testing.M) {
 const (
 	maxGasFee = uint64(60000000) // VMGasRate(200) * MaxGasAmount(300000): any larger BTM surplus buys the maximum gas
 	buildsPer = 6
-	maxInputs = 55 // worst-case inputs of a generated plan (see positive)
+	maxInputs = 48 // worst-case inputs of a generated plan (see positive)
 )
 
 // ---- requests -------------------------------------------------------------------------------------------
@@ -654,9 +654,12 @@ func (g *gen) negative() (*plan, error) {
 			used[cls{a.in.acct, a.in.asset}] = true
 		}
 	}
-	// veto-zero (currently a crash that ends the wallet's case) is tried only as the last build of a case
+	// veto-zero (a veto without amount: it used to crash the selection, which ends the wallet's case) is tried only as the last build of a case
 	n := len(negClasses) - 1
 	start := rng.Intn(n)
+	if w.unconf && rng.Chance(1, 4) { // the classes that need unconfirmed outputs are feasible in half of the wallets only
+		start = 7 + rng.Intn(2)
+	}
 	for k := 0; k < n; k++ {
 		class := negClasses[(start+k)%n]
 		if g.last && k == 0 && rng.Chance(1, 3) {
@@ -956,7 +959,12 @@ func TestC27(t *testing.T) {
 		if k == "veto-zero" {
 			continue
 		}
-		r.Floor("negative/"+k, 3)
+		min := int64(5)
+		switch k {
+		case "reserved", "utxo-reserved", "unconfirmed-denied", "utxo-unconfirmed-denied": // need a particular wallet state
+			min = 2
+		}
+		r.Floor("negative/"+k, min)
 	}
 	r.Floor("drain-after-failure/ok", 15)
 	r.Floor("retry-after-failure/ok", 15)
